@@ -297,7 +297,8 @@ WFLayout(toks, ws) ==
   /\ DOMAIN ws = 0 .. Len(toks)
   /\ \A g \in DOMAIN ws : ws[g] \in WsStrings /\ ((g >= 1 /\ toks[g].m) => ws[g] # "")
 
-Render(toks, ws) == <<ws[0]>> \o FlattenSeq([i \in 1 .. Len(toks) |-> <<toks[i].s, ws[i]>>])
+\* ws[0], tok 1, ws[1], tok 2, ... tok n, ws[n]   (written without recursion: renderings are long)
+Render(toks, ws) == [k \in 1 .. 2 * Len(toks) + 1 |-> IF k % 2 = 1 THEN ws[(k - 1) \div 2] ELSE toks[k \div 2].s]
 
 \* stripping the layout (whitespace) entries of a rendering gives back the lexical tokens
 StripWs(r) == [i \in 1 .. (Len(r) - 1) \div 2 |-> r[2 * i]]
